@@ -1,0 +1,25 @@
+//go:build verif
+
+package ha
+
+import "time"
+
+// Verification seams for property C14 (runtime-monitoring harness in /verif).
+// Exported wrappers around unexported functions / fields; no behaviour of their own.
+
+// VerifC14RecordFailure delivers one failed health probe to the monitor through the
+// real recordFailure (threshold counting and PartnerDown notification included).
+func (m *HealthMonitor) VerifC14RecordFailure(err error) error { return m.recordFailure(err) }
+
+// VerifC14RecordSuccess delivers one successful health probe through the real recordSuccess.
+func (m *HealthMonitor) VerifC14RecordSuccess(responseTime time.Duration, partnerID string, partnerRole Role, sessions int) {
+	m.recordSuccess(responseTime, partnerID, partnerRole, sessions)
+}
+
+// VerifC14Deadlines returns the controller's recorded failover / failback deadlines
+// (read-only; used only for state fingerprinting by the harness, never by an oracle).
+func (c *FailoverController) VerifC14Deadlines() (failover, failback time.Time) {
+	c.mu.RLock()
+	defer c.mu.RUnlock()
+	return c.failoverTime, c.failbackTime
+}
